@@ -4,4 +4,5 @@ CONSTANTS
   Dev = {"StoreBeforeConvert"}
 INVARIANT SlotsTyped
 INVARIANT FailedAssignIsNoOp
+INVARIANT FreshStartsEmpty
 CHECK_DEADLOCK FALSE
